@@ -167,3 +167,18 @@ def cls(qualname):
     if c is None:
         raise Unsupported(f"class {qualname} not found in the current source")
     return c
+
+
+def frame_ok(ctx):
+    """the frame condition used by the induction arguments: the code assigned no location that any code of the package
+    reads.  Writes to attributes that nothing ever reads (a debugging field, a statistics counter) are harmless and ignored;
+    item stores / mutations of pre-existing or module-level containers always count."""
+    loaded = P().loaded_attrs()
+    bad = []
+    for o, a in ctx.ghost.heap_writes:
+        from pyvc.sym import Obj
+        if isinstance(o, Obj) and isinstance(a, str) and "*" not in loaded and a not in loaded:
+            continue
+        bad.append((type(o).__name__ if not isinstance(o, Obj) else o.cls.name, a))
+    bad += list(ctx.ghost.module_writes)
+    return (not bad), str(bad[:3])
